@@ -460,17 +460,16 @@ func (mr *msgReader) read(p []byte) (int, error) {
 		}
 
 		n, err := mr.c.readFramePayload(mr.ctx, p)
-		if err != nil {
-			return n, err
-		}
 
 		mr.payloadLength -= int64(n)
 
+		// The bytes read before an error are handed to the caller too
+		// and so must be unmasked as well.
 		if !mr.c.client {
-			mr.maskKey = mask(p, mr.maskKey)
+			mr.maskKey = mask(p[:n], mr.maskKey)
 		}
 
-		return n, nil
+		return n, err
 	}
 }
 
